@@ -36,6 +36,8 @@ START_MODELS = [
     ("pheno_zero_order", "tests/testdata/nonmem/modeling/pheno_advan1_zero_order.mod", "zo1"),
     ("pheno_seq", "tests/testdata/nonmem/modeling/pheno_advan2_seq.mod", "seq1"),
     ("pheno_2transits", "tests/testdata/nonmem/modeling/pheno_2transits.mod", "tr2"),
+    # built from mox2 (see _build_derived): derived statements read KA, Q/V3, CL + CLMM and ALAG1
+    ("mox2_derived", None, "der1"),
 ]
 START_VEC = {
     "iv1": ("INST", 0, 0, False, "iv"), "oral1": ("FO", 0, 0, True, "oral"),
@@ -43,6 +45,7 @@ START_VEC = {
     "iv3": ("INST", 2, 0, False, "iv"), "oral3": ("FO", 2, 0, True, "oral"),
     "zo1": ("ZO", 0, 0, False, "oral"), "seq1": ("SEQ", 0, 0, True, "oral"),
     "tr2": ("FO", 1, 2, True, "oral"),
+    "der1": ("FO", 1, 0, True, "oral", "MIX", True),
 }
 MFL5 = ["A:INST", "A:FO", "A:ZO", "A:SEQ", "E:FO", "E:ZO", "E:MM", "E:MIX", "P:0", "P:1", "P:2", "P+", "P-",
         "T:0", "T:1", "T:3", "T:1N", "T:2N", "T:4N", "L:1", "L:0"]
@@ -95,10 +98,21 @@ def _load(names=None):
         })
     for name, rel, _ in START_MODELS:
         if (names is None or name in names) and name not in _MODELS:
+            if rel is None:
+                continue
             path = core.REPO / rel
             if not path.exists():
                 raise core.MachineryError(f"start model {path} not found")
             _MODELS[name] = pm.read_model(path)
+    if (names is None or "mox2_derived" in names) and "mox2_derived" not in _MODELS:
+        if "mox2" not in _MODELS:
+            _MODELS["mox2"] = pm.read_model(core.REPO / START_MODELS[1][1])
+        try:
+            _MODELS["mox2_derived"] = _build_derived(_MODELS["mox2"])
+        except core.MachineryError:
+            raise
+        except Exception as e:  # noqa: BLE001 - the setters / graph queries used to build it fail: judged in the walks
+            print(f"C08: derived start model could not be built ({type(e).__name__}: {str(e)[:100]}); its walk is skipped", file=sys.stderr)
     if not _MFL_FUNCS:
         # the request path of the search tools: MFL string -> ModelFeatures -> convert_to_funcs() -> {key: function}
         from pharmpy.tools.mfl.parse import ModelFeatures
@@ -106,6 +120,33 @@ def _load(names=None):
         table = ModelFeatures.create_from_mfl_string(MFL_SPACE).convert_to_funcs()
         for key, fn in table.items():
             _MFL_FUNCS[f"{key[0]}({','.join(str(a) for a in key[1:])})"] = fn
+
+
+def _build_derived(base):
+    """An unusual but legal start model: mox2 with one peripheral, lag time and mixed elimination, plus derived
+    statements that READ the structural symbols (before the ODEs: THALFA = 0.693/KA, K21D = Q/V3; after them:
+    CLTOT = CL + CLMM, TLAG = ALAG1), so that every request that removes or replaces a feature meets a symbol some
+    other statement still reads (the clean-up of the setters must keep such definitions)."""
+    from pharmpy.basic import Expr
+    from pharmpy.model import Assignment
+
+    m = base
+    for tok in ("P:1", "L:1", "E:MIX"):
+        m2, out, info = apply(m, tok)
+        if m2 is None:
+            raise RuntimeError(f"{tok} failed while building: {info}")
+        m = m2
+    st = m.statements
+    odes = st.ode_system
+    central, depot = odes.central_compartment, odes.find_depot(st)
+    per = odes.find_peripheral_compartments()[0]
+    ka, k21 = odes.get_flow(depot, central), odes.get_flow(per, central)
+    lag = odes.dosing_compartments[0].lag_time
+    before = (st.before_odes + Assignment.create(Expr.symbol("THALFA"), Expr.float(0.693) / ka)
+              + Assignment.create(Expr.symbol("K21D"), k21))
+    after = (st.after_odes + Assignment.create(Expr.symbol("CLTOT"), Expr.symbol("CL") + Expr.symbol("CLMM"))
+             + Assignment.create(Expr.symbol("TLAG"), lag))
+    return m.replace(statements=before + odes + after).update_source()
 
 
 _FEAT_RE = re.compile(r"(ABSORPTION|ELIMINATION|LAGTIME|TRANSITS|PERIPHERALS)\(([^)]*)\)")
@@ -788,7 +829,13 @@ def walk(v, book, start, svec, acts, depth, table, rng, expand_if=None, max_stat
     route = START_VEC[svec][4]
     vec0, _ = classify(_MODELS[start], route)
     exp = START_VEC[svec]
-    if (vec0["abs"], vec0["periph"], vec0["tr"], vec0["depot"]) != exp[:4] or vec0["elim"] != "FO" or vec0["lag"] or vec0["bio"]:
+    exp_elim, exp_lag = (exp[5], exp[6]) if len(exp) > 5 else ("FO", False)
+    if (vec0["abs"], vec0["periph"], vec0["tr"], vec0["depot"]) != exp[:4] or vec0["elim"] != exp_elim or vec0["lag"] != exp_lag or vec0["bio"]:
+        if start == "mox2_derived":
+            # built through the setters (mox2 + P:1, L:1, E:MIX): those steps are judged in the mox2 walks; if they do
+            # not lead to the expected vector this walk has no footing - say so, do not mask the verdict of the others
+            v.notes.append(f"derived start model reports {vec0} instead of {exp}: its walk was skipped")
+            return 0, 0, 0, 0
         raise core.MachineryError(f"start model {start} reports {vec0}, the specification's start vector {svec} is {exp}")
     frontier = [(_key(vec0), ())]
     seen = {_key(vec0)}
@@ -844,7 +891,7 @@ def main(tier: str, seed: int) -> int:
     ]
     rng = random.Random(seed)
     t0 = time.time()
-    names = ["pheno_real", "mox2"] if tier == "quick" else None
+    names = ["pheno_real", "mox2", "mox2_derived"] if tier == "quick" else None
     _load(names)
     book = Book()
     if tier == "quick":
@@ -857,6 +904,8 @@ def main(tier: str, seed: int) -> int:
             # ... and on the oral model everything that can be requested from the bioavailability states
             # (depot + lag + F at once is reached as B:1, L:1: dose attributes must survive every later request)
             ("mox2", "oral1", ALL_ACTS, 3, _ext_or_bio, None, 1),
+            # every request on the start model whose derived statements still read what the request cleans up
+            ("mox2_derived", "der1", MFL5, 1, None, None, 1),
         ]
     else:
         table = tlc_graph("FeaturesFull.cfg", ALL_ACTS, v, timeout=3000)
@@ -864,10 +913,13 @@ def main(tier: str, seed: int) -> int:
         plan = [
             ("pheno_real", "iv1", ALL_ACTS, 4, None, 300, 3),
             ("mox2", "oral1", ALL_ACTS, 4, None, 300, 3),
-        ] + [(n, sv, ALL_ACTS, 3, None, 100, 2) for n, _, sv in START_MODELS[2:]]
+        ] + [(n, sv, ALL_ACTS, 3, None, 100, 2) for n, _, sv in START_MODELS[2:-1]] + [("mox2_derived", "der1", ALL_ACTS, 2, None, None, 1)]
     walks = []
     table_ext: dict = {}   # obligations over the full alphabet, asked from TLC on demand (quick tier)
     for start, svec, acts, depth, expand_if, cap, mfl_depth in plan:
+        if start not in _MODELS:
+            v.notes.append(f"start model {start} is not available: its walk was skipped")
+            continue
         tb = table if tier == "thorough" or len(acts) == len(MFL5) else table_ext
         ns, ne, nseen, nopen = walk(v, book, start, svec, set(acts), depth, tb, rng, expand_if, cap, mfl_depth)
         walks.append({"start": start, "acts": len(acts), "depth": depth, "states_expanded": ns, "edges": ne, "vectors_seen": nseen,
@@ -881,7 +933,8 @@ def main(tier: str, seed: int) -> int:
         tasks = []
         for i, h in enumerate(hists):
             start, _, svec = START_MODELS[i % len(START_MODELS)]
-            tasks.append((start, h, START_VEC[svec][4], None))
+            if start in _MODELS:
+                tasks.append((start, h, START_VEC[svec][4], None))
         for obs_list in core.pmap(replay_history, tasks, procs=16, chunk=4):
             for obs in obs_list:
                 book.add(obs)
